@@ -1,83 +1,85 @@
 import GaeaVerif.Model.Fingerprint
 import GaeaVerif.Model.FingerprintGrammar
 import GaeaVerif.Lemmas.FingerprintSteps
+import GaeaVerif.Lemmas.FingerprintBlank
 import GaeaVerif.Gen.Consts
 /-
   C36 — The SQL blacklist ignores literals, spacing, case and comments.
 
   Theorems about `Model/Fingerprint.lean` (transliteration of
-  mysql.GetFingerprint and of parseBlackSqls / Namespace.IsSQLAllowed, tied to
-  /repo by the correspondence check `gvh run C36`).
+  mysql.GetFingerprint with blankComments, and of parseBlackSqls /
+  Namespace.IsSQLAllowed, tied to /repo by the correspondence check
+  `gvh run C36`).
 
   Statements are taken from the token grammar of `Model/FingerprintGrammar.lean`:
-  a statement is a sequence of items — words (keywords, identifiers, operators
-  and punctuation: maximal runs of non-blank characters such as `select`,
-  `t.id`, `a,`, `>=`, `count(*)`, `(c`), numeric literals, quoted strings, and
-  unspaced comparisons (`id=1`, `name>='x'`: a word ending with an operator
-  character glued to a literal) and value lists (`in (1, 'a')`, `values(f(b), ")")`:
-  the keyword, optional white space, and a parenthesised list with balanced
-  parentheses and closed quotes, followed by white space only and then by a word
-  such as `and`, `)`, `order`, or by the end) — each followed by a separator (white space,
-  in which complete `/* */`, `-- ` and `#` comments may be embedded after the
-  first blank), optionally preceded by leading blanks and comments.  Two
-  statements are *variants* of each other if they have the same skeleton
-  (`Stmt.skeleton`: the lower-cased words in order, `?` for every literal):
-  they differ only in literal values, letter case, amount and kind of white
-  space, and comments in the separators.
+  a statement is a sequence of items, each followed by a separator.
+  * A *chunk* is text without blanks: word text (keywords, identifiers,
+    operators, punctuation), numeric literals (plain, hex, with exponent `e-5` /
+    `e+5`, signed, with a leading dot) and quoted strings (backslash escapes,
+    doubled quotes, hex/bit strings `x'0F'`) glued together: `select`, `t.id`,
+    `a,`, `>=`, `count(*)`, `id=1`, `name>='it''s'`, `f(1,2)`, `5,10`,
+    `(a=-1.5e+3`, `a=x'0F'`.
+  * A *value list* is `in`/`value`/`values`, a gap, a parenthesised list
+    (balanced parentheses, closed quotes) and any number of further rows
+    `, ( … )`; a one-row list may be glued to the chunk after it (`(a in (1))`).
+  * A separator / gap is any non-empty sequence of white-space characters
+    (blank, tab, CR, LF, VT, FF) and complete comments `/* */`, `-- `, `#`:
+    a comment may be glued to the tokens around it, stand between `in` and its
+    list, between two rows, and inside the parentheses of a list (where it may
+    hold quotes and parentheses).
+  Two statements are *variants* of each other if they have the same skeleton
+  (`Stmt.skeleton`: the lower-cased word text in order, `?` for every literal,
+  `in(?+)` for every value list): they differ only in literal values, letter
+  case, amount and kind of white space, comments, and the contents and number
+  of rows of value lists.
 
-  * `fingerprint_of_stmt` / `fingerprint_eq_joinSp`: the fingerprint of every
-    statement of the grammar is its skeleton joined by single blanks, and
-    `GetFingerprint` does not panic — for all statements (any length).
+  * `blank_stmt` (Lemmas/FingerprintBlank.lean): `blankComments` turns the text
+    of a statement into the text of the same statement with blanks for comments.
+  * `fingerprint_core`: the state machine on a comment-free statement writes
+    its skeleton — by symbolic execution (`Lemmas/FingerprintSteps.lean`).
+  * `fingerprint_eq_joinSp`: the fingerprint of every statement of the grammar
+    is its skeleton joined by single blanks, and `GetFingerprint` does not panic
+    — for all statements (any length).
   * `fp_invariant_partial`: variants have the same fingerprint.
   * `fp_discriminates_partial`: statements with different skeletons (another
     table, column, operator, keyword, clause, or number of items) have
     different fingerprints.
   * `blacklist_rejects_variant_partial`, `blacklist_allows_mutant_partial`:
     the same two facts for `IsSQLAllowed` against `parseBlackSqls [entry]`.
-  The proofs are a symbolic execution of the state machine
-  (`Lemmas/FingerprintSteps.lean`): from a *clean* state every item contributes
-  its normal form and one blank and leaves a clean state; every separator
-  piece contributes nothing.
 
   `_partial`: the property quantifies over every SELECT/INSERT/UPDATE/DELETE
   statement; the theorems cover the grammar above.  NOT covered (correspondence
-  and oracle only; `known/C36.json` lists the classes in which the code is known
-  to fail, each with a `…_witness` theorem below): several rows of `VALUES`,
-  comments around value lists, literals glued to punctuation (`f(1,2)`, `1,`), the words `null` (as a
-  value) / `asc` / `in` / `value(s)` / `use`, the characters `: + - / #` inside
-  words, comments glued to a token, strings with doubled quotes, numbers with an
-  explicit `+` exponent sign or a leading dot, signed numbers, `\v`/`\f`.
-  The model is that of the code after the fix commits b59f3d0, 12d9e41, fe0c1ed,
-  5b1add8 of the repository worktree (comments containing `/`, comments in
-  front of a literal, `-- ` comments in front of an unspaced comparison, the
-  output buffer that `a in(1) or b in(1)` overflowed: before 5b1add8 the "no
-  panic" half of `fingerprint_of_stmt` was false).
+  and oracle only): the words `null` (as a value) / `asc` / `use` and
+  `in`/`value(s)` without a list (also behind `ON DUPLICATE KEY UPDATE`, where
+  only the glued form `a=values(a)` is covered), the characters
+  `: + - / #` inside word text (arithmetic), a word glued behind a number
+  (`1and`), a comma or an operator directly after a value
+  list.  Two classes in which the code is known to fail remain open
+  (`known/C36.json`, `…_witness` theorems below): optional white space around
+  operators and punctuation is significant (`id=1` / `id = 1`, pinned by the
+  expected strings of mysql/sql_fingerprint_test.go), and the contents of a
+  value list are collapsed whatever they are (`a in (1)` / `a in (b)`).
+  The model is that of the code after the fix commits of the repository
+  worktree listed in known/C36.json (`fixed`); the `…_repaired` theorems record
+  the former witnesses.
 -/
 namespace GaeaVerif.C36
-open GaeaVerif.Fingerprint GaeaVerif.FingerprintGrammar GaeaVerif.FingerprintSteps
+open GaeaVerif.Fingerprint GaeaVerif.FingerprintGrammar GaeaVerif.FingerprintSteps GaeaVerif.FingerprintBlank
 
-theorem text_space (s : Stmt) :
-    s.text ++ [' '] = s.lead.flatMap SepPiece.text ++ renderItems s.allItems := by
-  have h : ∀ (l : List (Item × Sep)) (x : Item × Sep), renderItems (l ++ [x]) = renderItems l ++ x.1.text ++ x.2.text := by
-    intro l x
-    induction l with
-    | nil => simp [renderItems]
-    | cons p rest ih => obtain ⟨a, b⟩ := p; simp [renderItems, ih]
-  simp only [Stmt.text, Stmt.allItems, h, Stmt.lastSep]
-  cases s.tail with
-  | none => simp [Sep.text]
-  | some t => simp [Sep.text, SepPiece.text]
+theorem renderItems_snoc : ∀ (l : List (Item × Gap)) (x : Item × Gap),
+    renderItems (l ++ [x]) = renderItems l ++ (x.1.text ++ gapText x.2) := by
+  intro l x
+  induction l with
+  | nil => simp [renderItems]
+  | cons p rest ih => obtain ⟨a, b⟩ := p; simp [renderItems, ih]
 
+theorem text_space (s : Stmt) : s.text ++ [' '] = gapText s.lead ++ renderItems s.allItems := by
+  simp [Stmt.text, Stmt.allItems, renderItems_snoc, Stmt.lastSep, gapText, SepPiece.text]
 
-theorem normAll_eq (its : List Item) : normAll its = joinSkel (its.map Item.norm) := by
-  induction its with
-  | nil => rfl
-  | cons it rest ih => simp [normAll, joinSkel, ih]
+/-! ### The state machine on a comment-free statement -/
 
-/-! ### The fingerprint of a statement of the grammar -/
-
-theorem clean_init : Clean 0 ({} : St) := by
-  constructor
+theorem clean_init : Clean false 0 ({} : St) := by
+  apply Clean.of
   · right; exact ⟨rfl, by decide⟩
   · rfl
   · decide
@@ -87,28 +89,27 @@ theorem clean_init : Clean 0 ({} : St) := by
   · left; rfl
   · decide
   · rfl
-  · decide
+  · intro _; decide
   · rfl
   · rfl
 
-/-- **The fingerprint of every statement of the grammar is its skeleton**, each
-    token followed by one blank, trailing blanks removed; `GetFingerprint` does
-    not panic on it. -/
-theorem fingerprint_of_stmt (s : Stmt) (hok : s.ok = true) :
-    getFingerprint s.text = .ret (trimTrailing (joinSkel s.skeleton)) := by
-  simp only [Stmt.ok, Bool.and_eq_true] at hok
-  obtain ⟨⟨⟨⟨⟨hlead, hinit⟩, hlast⟩, htail⟩, hctx⟩, hlists⟩ := hok
-  unfold getFingerprint
-  simp only
+/-- **The state machine writes the skeleton of every comment-free statement
+    of the grammar**: the normal form of every item, one blank after each
+    separator; it does not panic. -/
+theorem fingerprint_core (s : Stmt) (hcore : s.core = true) :
+    run (s.text ++ [' ']) (2 * (s.text ++ [' ']).length + 1) 0 {} (s.text ++ [' ']) =
+      .ret (trimTrailing (normAll s.allItems)) := by
+  simp only [Stmt.core, Bool.and_eq_true] at hcore
+  obtain ⟨⟨⟨⟨⟨hlead, hinit⟩, hlast⟩, htail⟩, hctx⟩, hseps⟩ := hcore
   rw [text_space]
-  generalize hq : s.lead.flatMap SepPiece.text ++ renderItems s.allItems = q
+  generalize hq : gapText s.lead ++ renderItems s.allItems = q
   have hcap : 2 * q.length < 2 * q.length + 1 := Nat.lt_succ_self _
-  -- leading blanks and comments
-  obtain ⟨σ1, h1, hc1, hs1⟩ := pieces_run q (2 * q.length + 1) s.lead 0 {} clean_init hlead
+  -- leading blanks
+  obtain ⟨σ1, h1, hc1, hs1⟩ := ws_run q (2 * q.length + 1) (gapText s.lead) 0 {} clean_init (gapText_ws _ hlead)
   -- the items
-  have hdrop : q.drop (0 + (s.lead.flatMap SepPiece.text).length) = renderItems s.allItems := by
+  have hdrop : q.drop (0 + (gapText s.lead).length) = renderItems s.allItems := by
     rw [← hq]; simp
-  have hitems : ∀ p ∈ s.allItems, p.1.shapeOK = true ∧ p.2.ok = true := by
+  have hitems : ∀ p ∈ s.allItems, p.1.core = true ∧ wsGap p.2 = true := by
     intro p hp
     simp only [Stmt.allItems, List.mem_append, List.mem_singleton] at hp
     rcases hp with hp | hp
@@ -117,25 +118,14 @@ theorem fingerprint_of_stmt (s : Stmt) (hok : s.ok = true) :
     · subst hp
       refine ⟨hlast, ?_⟩
       simp only [Stmt.lastSep]
-      cases hts : s.tail with
-      | none => simp [Sep.ok, isSpace]
-      | some t =>
-        rw [hts] at htail
-        simp only [Sep.ok, Bool.and_eq_true] at htail ⊢
-        refine ⟨htail.1, ?_⟩
-        simp [List.all_append, htail.2, SepPiece.ok, isSpace]
+      exact wsGap_append _ _ htail (by decide)
   have hmap : s.allItems.map (·.1) = s.items := by simp [Stmt.allItems, Stmt.items]
-  obtain ⟨σ2, h2, hf2⟩ := items_run q (2 * q.length + 1) hcap s.allItems _ σ1 (Or.inl hc1) hdrop hitems
-    (by rw [hs1.2, hmap]; exact hctx) hlists
-  have hrun : run q (2 * q.length + 1) 0 {} q = .ret (trimTrailing σ2.f) := by
-    conv => lhs; rw [← hq]
-    rw [hq]
-    have e : q = s.lead.flatMap SepPiece.text ++ (renderItems s.allItems ++ []) := by simp [hq]
-    conv => lhs; arg 5; rw [e]
-    rw [run_of_runSeg q _ _ _ 0 {} σ1 h1, run_of_runSeg q _ _ _ _ σ1 σ2 h2]
-    simp [run]
-  rw [hrun, hf2, hs1.1, hmap, normAll_eq]
-  simp [Stmt.skeleton]
+  obtain ⟨σ2, h2, hf2⟩ := items_run q (2 * q.length + 1) hcap s.allItems false _ σ1 (Or.inl hc1) hdrop hitems
+    (by rw [hs1.2, hmap]; exact hctx) hseps
+  have e : q = gapText s.lead ++ (renderItems s.allItems ++ []) := by simp [hq]
+  conv => lhs; arg 5; rw [e]
+  rw [run_of_runSeg q _ _ _ 0 {} σ1 h1, run_of_runSeg q _ _ _ _ σ1 σ2 h2]
+  simp [run, hf2, hs1.1]
 
 /-! ### Skeletons determine fingerprints, and are determined by them -/
 
@@ -268,9 +258,10 @@ theorem toLower_ne (c x : Char) (hx : x.val.toNat < 65) (hc : c ≠ x) : c.toLow
 
 theorem toLower_space (c : Char) (h : isSpace c = false) : isSpace c.toLower = false := by
   simp only [isSpace, Bool.or_eq_false_iff, decide_eq_false_iff_not] at h ⊢
-  obtain ⟨⟨⟨h1, h2⟩, h3⟩, h4⟩ := h
-  exact ⟨⟨⟨toLower_ne c ' ' (by decide) h1, toLower_ne c '\t' (by decide) h2⟩, toLower_ne c '\r' (by decide) h3⟩,
-    toLower_ne c '\n' (by decide) h4⟩
+  obtain ⟨⟨⟨⟨⟨h1, h2⟩, h3⟩, h4⟩, h5⟩, h6⟩ := h
+  exact ⟨⟨⟨⟨⟨toLower_ne c ' ' (by decide) h1, toLower_ne c '\t' (by decide) h2⟩, toLower_ne c '\r' (by decide) h3⟩,
+    toLower_ne c '\n' (by decide) h4⟩, toLower_ne c (Char.ofNat 11) (by decide) h5⟩,
+    toLower_ne c (Char.ofNat 12) (by decide) h6⟩
 
 theorem lower_word_tokOK (w : List Char) (h : wordShape w = true) : TokOK (lower w) := by
   cases w with
@@ -290,54 +281,155 @@ theorem lower_word_tokOK (w : List Char) (h : wordShape w = true) : TokOK (lower
       exact hfirst.1.1
     · exact chainOK_notBad c rest hchain _ hy
 
-theorem tokOK_snoc_q (t : List Char) (h : TokOK t) : TokOK (t ++ ['?']) := by
-  refine ⟨by simp, ?_⟩
+
+/-! ### Normal forms are blank-free tokens -/
+
+theorem tokOK_append (a b : List Char) (ha : TokOK a) (hb : ∀ c ∈ b, isSpace c = false) : TokOK (a ++ b) := by
+  refine ⟨by simp [ha.1], ?_⟩
   intro c hc
   rcases List.mem_append.mp hc with hc | hc
-  · exact h.2 c hc
-  · simp at hc; subst hc; decide
+  · exact ha.2 c hc
+  · exact hb c hc
+
+theorem segNorm_tok (x : Seg) (ctx : SegCtx) (rest : List Seg) (h : segsOK ctx (x :: rest) = true) : TokOK x.norm := by
+  cases x with
+  | w t =>
+    simp only [segsOK, Bool.and_eq_true] at h
+    exact lower_word_tokOK t h.1.2
+  | n t => exact ⟨by simp [Seg.norm], by intro c hc; simp [Seg.norm] at hc; subst hc; decide⟩
+  | s t => exact ⟨by simp [Seg.norm], by intro c hc; simp [Seg.norm] at hc; subst hc; decide⟩
+  | p _ t => exact ⟨by simp [Seg.norm], by intro c hc; simp [Seg.norm] at hc; subst hc; decide⟩
+
+theorem segsOK_tail (x : Seg) (ctx : SegCtx) (rest : List Seg) (h : segsOK ctx (x :: rest) = true) :
+    ∃ ctx', segsOK ctx' rest = true ∧ ctx' ≠ .start := by
+  cases x with
+  | w t =>
+    simp only [segsOK, Bool.and_eq_true] at h
+    cases hl : t.getLast? with
+    | none => rw [hl] at h; cases h.2
+    | some a => rw [hl] at h; exact ⟨_, h.2, by simp⟩
+  | n t => simp only [segsOK, Bool.and_eq_true] at h; exact ⟨_, h.2, by simp⟩
+  | s t => simp only [segsOK, Bool.and_eq_true] at h; exact ⟨_, h.2, by simp⟩
+  | p c t => simp only [segsOK, Bool.and_eq_true] at h; exact ⟨_, h.2, by simp⟩
+
+theorem segsNorm_nospace : ∀ (segs : List Seg) (ctx : SegCtx), segsOK ctx segs = true →
+    ∀ c ∈ segsNorm segs, isSpace c = false := by
+  intro segs
+  induction segs with
+  | nil => intro _ _ c hc; simp [segsNorm] at hc
+  | cons x rest ih =>
+    intro ctx h c hc
+    rw [segsNorm_cons] at hc
+    rcases List.mem_append.mp hc with hc | hc
+    · exact (segNorm_tok x ctx rest h).2 c hc
+    · obtain ⟨ctx', h', _⟩ := segsOK_tail x ctx rest h
+      exact ih ctx' h' c hc
 
 theorem norm_tokOK (it : Item) (h : it.shapeOK = true) : TokOK it.norm := by
   cases it with
-  | num n => exact ⟨by simp [Item.norm], by intro c hc; simp [Item.norm] at hc; subst hc; decide⟩
-  | str t => exact ⟨by simp [Item.norm], by intro c hc; simp [Item.norm] at hc; subst hc; decide⟩
-  | word w => exact lower_word_tokOK w h
-  | cmpNum w n =>
-    simp only [Item.shapeOK, cmpShape, Bool.and_eq_true] at h
-    exact tokOK_snoc_q _ (lower_word_tokOK w h.1.1.1)
-  | cmpStr w t =>
-    simp only [Item.shapeOK, cmpShape, Bool.and_eq_true] at h
-    exact tokOK_snoc_q _ (lower_word_tokOK w h.1.1.1)
-  | vlist kw gap content =>
-    simp only [Item.shapeOK, listShape, Bool.and_eq_true] at h
-    have hk := lower_word_tokOK kw h.1.1.1.1
-    refine ⟨by simp [Item.norm, hk.1], ?_⟩
+  | chunk segs =>
+    cases segs with
+    | nil => simp [Item.shapeOK, segsOK] at h
+    | cons x rest =>
+      simp only [Item.shapeOK] at h
+      obtain ⟨ctx', h', _⟩ := segsOK_tail x .start rest h
+      simp only [Item.norm, segsNorm_cons]
+      exact tokOK_append _ _ (segNorm_tok x .start rest h) (segsNorm_nospace rest ctx' h')
+  | vlist kw gap content rows =>
+    simp only [Item.shapeOK, kwShape, Bool.and_eq_true] at h
+    have hk := lower_word_tokOK kw h.1.1.1.1.1
+    simp only [Item.norm]
+    apply tokOK_append _ _ hk
     intro c hc
-    simp only [Item.norm] at hc
-    rcases List.mem_append.mp hc with hc | hc
-    · exact hk.2 c hc
-    · split at hc <;> simp at hc <;> rcases hc with rfl | rfl | rfl | rfl <;> decide
+    split at hc <;> simp at hc <;> rcases hc with rfl | rfl | rfl | rfl <;> decide
 
-theorem skeleton_tokOK (s : Stmt) (hok : s.ok = true) : ∀ t ∈ s.skeleton, TokOK t := by
-  simp only [Stmt.ok, Bool.and_eq_true] at hok
-  obtain ⟨⟨⟨⟨⟨_, hinit⟩, hlast⟩, _⟩, _⟩, _⟩ := hok
-  intro t ht
-  simp only [Stmt.skeleton, Stmt.items, List.map_append, List.map_map, List.mem_append, List.mem_map,
-    List.map_cons, List.map_nil, List.mem_singleton] at ht
-  rcases ht with ⟨p, hp, rfl⟩ | rfl
-  · have := List.all_eq_true.mp hinit p hp
-    simp only [Bool.and_eq_true] at this
-    exact norm_tokOK _ this.1
-  · exact norm_tokOK _ hlast
+theorem skelOf_ne_nil : ∀ (its : List (Item × Gap)), its ≠ [] → skelOf its ≠ [] := by
+  intro its h
+  cases its with
+  | nil => exact absurd rfl h
+  | cons p rest =>
+    obtain ⟨it, g⟩ := p
+    simp only [skelOf]
+    split
+    · split <;> simp
+    · simp
 
-/-- `fingerprint_of_stmt` in its readable form: the skeleton joined by single blanks. -/
+theorem skelOf_tokOK : ∀ (its : List (Item × Gap)), (∀ p ∈ its, p.1.shapeOK = true) →
+    ∀ t ∈ skelOf its, TokOK t := by
+  intro its
+  induction its with
+  | nil => intro _ t ht; simp [skelOf] at ht
+  | cons p rest ih =>
+    intro h t ht
+    obtain ⟨it, g⟩ := p
+    have hn := norm_tokOK it (h (it, g) (by simp))
+    have ihr := ih (fun p hp => h p (by simp [hp]))
+    simp only [skelOf] at ht
+    split at ht
+    · split at ht
+      · simp only [List.mem_singleton] at ht; subst ht; exact hn
+      · rename_i t0 ts hsk
+        rcases List.mem_cons.mp ht with ht | ht
+        · subst ht
+          exact tokOK_append _ _ hn (ihr t0 (by rw [hsk]; simp)).2
+        · exact ihr t (by rw [hsk]; simp [ht])
+    · rcases List.mem_cons.mp ht with ht | ht
+      · subst ht; exact hn
+      · exact ihr t ht
+
+/-- The concatenated normal forms are the skeleton, one blank after each token. -/
+theorem normAll_eq : ∀ (its : List (Item × Gap)), sepsOK its = true → normAll its = joinSkel (skelOf its) := by
+  intro its
+  induction its with
+  | nil => intro _; rfl
+  | cons p rest ih =>
+    intro h
+    obtain ⟨it, g⟩ := p
+    simp only [sepsOK, Bool.and_eq_true] at h
+    obtain ⟨⟨h1, _⟩, h3⟩ := h
+    have ihr := ih h3
+    simp only [normAll, skelOf]
+    cases hg : g.isEmpty with
+    | true =>
+      rw [hg] at h1
+      simp only [if_true, Bool.and_eq_true, Bool.not_eq_true', List.isEmpty_eq_false_iff] at h1
+      have hne := skelOf_ne_nil rest h1.2
+      cases hsk : skelOf rest with
+      | nil => exact absurd hsk hne
+      | cons t ts =>
+        rw [hsk] at ihr
+        simp [ihr, joinSkel]
+    | false => simp [ihr, joinSkel]
+
+theorem skeleton_tokOK (s : Stmt) (hok : s.ok = true) : ∀ t ∈ s.skeleton, TokOK t :=
+  skelOf_tokOK s.allItems (allItems_shape s hok)
+
+/-! ### The fingerprint of a statement of the grammar -/
+
+theorem core_seps (s : Stmt) (h : s.core = true) : sepsOK s.allItems = true := by
+  simp only [Stmt.core, Bool.and_eq_true] at h; exact h.2
+
+/-- **The fingerprint of every statement of the grammar is its skeleton
+    joined by single blanks**, and `GetFingerprint` does not panic on it. -/
 theorem fingerprint_eq_joinSp (s : Stmt) (hok : s.ok = true) :
     getFingerprint s.text = .ret (joinSp s.skeleton) := by
-  rw [fingerprint_of_stmt s hok, trim_joinSkel _ (skeleton_tokOK s hok)]
+  obtain ⟨hcore, hskel⟩ := toCore_core s hok
+  have hrun := fingerprint_core s.toCore hcore
+  unfold getFingerprint
+  simp only
+  rw [blank_stmt s hok, hrun, normAll_eq _ (core_seps _ hcore)]
+  have : skelOf s.toCore.allItems = s.skeleton := hskel
+  rw [this, trim_joinSkel _ (skeleton_tokOK s hok)]
+
+/-- `fingerprint_eq_joinSp` with the trailing-blank form of the skeleton. -/
+theorem fingerprint_of_stmt (s : Stmt) (hok : s.ok = true) :
+    getFingerprint s.text = .ret (trimTrailing (joinSkel s.skeleton)) := by
+  rw [fingerprint_eq_joinSp s hok, trim_joinSkel _ (skeleton_tokOK s hok)]
 
 /-- **C36, invariance (partial: the statements of the grammar).**  Two
     statements with the same skeleton — they differ only in literal values,
-    letter case, white space and comments between the items — have the same
+    letter case, white space, comments (glued or not, around and inside value
+    lists) and the contents and rows of value lists — have the same
     fingerprint, and `GetFingerprint` panics on neither. -/
 theorem fp_invariant_partial (a b : Stmt) (ha : a.ok = true) (hb : b.ok = true)
     (hsk : a.skeleton = b.skeleton) :
@@ -358,17 +450,45 @@ theorem fp_discriminates_partial (a b : Stmt) (ha : a.ok = true) (hb : b.ok = tr
 
 /-! ### The blacklist -/
 
+theorem segsText_ne_nil (segs : List Seg) (ctx : SegCtx) (h : segsOK ctx segs = true) (hne : segs ≠ []) :
+    segsText segs ≠ [] := by
+  cases segs with
+  | nil => exact absurd rfl hne
+  | cons x rest =>
+    rw [segsText_cons]
+    cases x with
+    | w t =>
+      simp only [segsOK, Bool.and_eq_true] at h
+      cases t with
+      | nil => simp [wordShape] at h
+      | cons _ _ => simp [Seg.text]
+    | n t =>
+      simp only [segsOK, Bool.and_eq_true] at h
+      cases t with
+      | nil => simp [numShape] at h
+      | cons _ _ => simp [Seg.text]
+    | s t =>
+      simp only [segsOK, Bool.and_eq_true] at h
+      cases t with
+      | nil => simp [strShape] at h
+      | cons _ _ => simp [Seg.text]
+    | p c t => simp [Seg.text]
+
 theorem stmt_text_ne_nil (s : Stmt) (hok : s.ok = true) : s.text.length ≠ 0 := by
   simp only [Stmt.ok, Bool.and_eq_true] at hok
   obtain ⟨⟨⟨⟨_, hlast⟩, _⟩, _⟩, _⟩ := hok
   have : s.last.text ≠ [] := by
     cases hl : s.last with
-    | word w => rw [hl] at hlast; cases w <;> simp_all [Item.shapeOK, wordShape, Item.text]
-    | num n => rw [hl] at hlast; cases n <;> simp_all [Item.shapeOK, numShape, Item.text]
-    | str t => rw [hl] at hlast; cases t <;> simp_all [Item.shapeOK, strShape, Item.text]
-    | cmpNum w n => rw [hl] at hlast; cases n <;> simp_all [Item.shapeOK, numShape, Item.text]
-    | cmpStr w t => rw [hl] at hlast; cases t <;> simp_all [Item.shapeOK, strShape, Item.text]
-    | vlist kw gap content => simp [Item.text]
+    | chunk segs =>
+      rw [hl] at hlast
+      simp only [Item.shapeOK] at hlast
+      have hne : segs ≠ [] := by intro e; subst e; simp [segsOK] at hlast
+      exact segsText_ne_nil segs .start hlast hne
+    | vlist kw gap content rows =>
+      simp only [Item.text]
+      intro e
+      have := congrArg List.length e
+      simp at this
   have hpos : 0 < s.last.text.length := List.length_pos_iff.mpr this
   simp only [Stmt.text, List.length_append]
   omega
@@ -400,44 +520,47 @@ theorem blacklist_allows_mutant_partial (md5 : List Char → List Char) (entry :
     have : md5 (joinSp a.skeleton) ≠ md5 (joinSp b.skeleton) := fun h => hne (hmd5 h)
     simp [isSQLAllowed, fingerprint_eq_joinSp b hb, this]
 
+
 /-! ### Non-vacuity: concrete statements of the grammar -/
 
 section Examples
 
-private def sp1 : Sep := { first := ' ', pieces := [] }
-/-- `⏎\t/*a/b */  -- x⏎# y⏎ ` -/
-private def spBusy : Sep :=
-  { first := '\n',
-    pieces := [.ws '\t', .mlc "a/b */".toList, .ws ' ', .ws ' ', .dash ' ' "x\n".toList, .hash " y\n".toList, .ws ' '] }
-private def wd (s : String) : Item := .word s.toList
+private def sp1 : Gap := [.ws ' ']
+/-- `/*a/b */ -- x⏎# y⏎`: the first comment is glued to the token in front of it -/
+private def spBusy : Gap := [.mlc "a/b */".toList, .ws ' ', .dash ' ' "x\n".toList, .hash " y\n".toList]
+/-- a comment as the only separator -/
+private def spGlued : Gap := [.mlc " it's ( */".toList]
+private def wd (s : String) : Item := .chunk [.w s.toList]
+private def nm (s : String) : Item := .chunk [.n s.toList]
+private def st (s : String) : Item := .chunk [.s s.toList]
 
 /-- `select c, count(*) from t where id = 1 and name >= 'x' order by c desc limit 10` -/
 private def exA : Stmt :=
   { lead := []
     init := [(wd "select", sp1), (wd "c,", sp1), (wd "count(*)", sp1), (wd "from", sp1), (wd "t", sp1),
-             (wd "where", sp1), (wd "id", sp1), (wd "=", sp1), (.num "1".toList, sp1), (wd "and", sp1),
-             (wd "name", sp1), (wd ">=", sp1), (.str "'x'".toList, sp1), (wd "order", sp1), (wd "by", sp1),
+             (wd "where", sp1), (wd "id", sp1), (wd "=", sp1), (nm "1", sp1), (wd "and", sp1),
+             (wd "name", sp1), (wd ">=", sp1), (st "'x'", sp1), (wd "order", sp1), (wd "by", sp1),
              (wd "c", sp1), (wd "desc", sp1), (wd "limit", sp1)]
-    last := .num "10".toList
-    tail := none }
+    last := nm "10"
+    tail := [] }
 
 /-- The same statement with other literals, other letter case, other white
-    space, and comments of all three kinds. -/
+    space, and comments of all three kinds, glued to the tokens or not. -/
 private def exB : Stmt :=
-  { lead := [.ws ' ', .mlc " lead */".toList, .ws '\n']
-    init := [(wd "SELECT", spBusy), (wd "c,", sp1), (wd "COUNT(*)", spBusy), (wd "From", sp1), (wd "t", spBusy),
-             (wd "WHERE", sp1), (wd "id", spBusy), (wd "=", spBusy), (.num "0x1F".toList, spBusy), (wd "AND", sp1),
-             (wd "name", sp1), (wd ">=", spBusy), (.str "\"it's \\\" -- /* no comment */\"".toList, spBusy),
-             (wd "ORDER", sp1), (wd "BY", spBusy), (wd "c", sp1), (wd "DESC", sp1), (wd "LIMIT", spBusy)]
-    last := .num "2.5e-3".toList
-    tail := some spBusy }
+  { lead := [.ws ' ', .mlc " lead */".toList]
+    init := [(wd "SELECT", spBusy), (wd "c,", spGlued), (wd "COUNT(*)", spBusy), (wd "From", sp1), (wd "t", spBusy),
+             (wd "WHERE", [.ws '\x0b']), (wd "id", spGlued), (wd "=", spBusy), (nm "0x1F", spBusy), (wd "AND", sp1),
+             (wd "name", sp1), (wd ">=", spGlued), (st "\"it''s \\\" \"\" -- /* no comment */\"", spBusy),
+             (wd "ORDER", sp1), (wd "BY", spBusy), (wd "c", sp1), (wd "DESC", [.hash "\n".toList]), (wd "LIMIT", spGlued)]
+    last := nm "2.5e+3"
+    tail := [.dash '\t' " the end\n".toList, .ws '\x0c'] }
 
 /-- A structural mutant of `exA`: another operator. -/
 private def exC : Stmt := { exA with init := exA.init.map fun p => if p.1 = wd "=" then (wd "<>", p.2) else p }
 
 example : exA.text = "select c, count(*) from t where id = 1 and name >= 'x' order by c desc limit 10".toList := by
   decide
-example : exB.text.take 41 = " /* lead */\nSELECT\n\t/*a/b */  -- x\n# y\n c".toList := by decide
+example : exB.text.take 49 = " /* lead */SELECT/*a/b */ -- x\n# y\nc,/* it's ( */".toList := by decide
 example : exA.ok = true ∧ exB.ok = true ∧ exC.ok = true := by decide
 example : exA.skeleton = exB.skeleton ∧ exA.skeleton ≠ exC.skeleton := by decide
 
@@ -458,53 +581,92 @@ example (md5 : List Char → List Char) :
       isSQLAllowed md5 m exB.text = some false :=
   blacklist_rejects_variant_partial md5 _ exA exB (by decide) (by decide) (by decide) (by decide)
 
-/-- `update t set a=1 , name='x' where t.id>=10` -/
+/-- `update t set a=1 , name='x' where t.id>=10 and f(1,2)<>5 limit 5,10`: literals glued to word text -/
 private def exD : Stmt :=
   { lead := []
-    init := [(wd "update", sp1), (wd "t", sp1), (wd "set", sp1), (.cmpNum "a=".toList "1".toList, sp1),
-             (wd ",", sp1), (.cmpStr "name=".toList "'x'".toList, sp1), (wd "where", sp1)]
-    last := .cmpNum "t.id>=".toList "10".toList
-    tail := none }
+    init := [(wd "update", sp1), (wd "t", sp1), (wd "set", sp1), (.chunk [.w "a=".toList, .n "1".toList], sp1),
+             (wd ",", sp1), (.chunk [.w "name=".toList, .s "'x'".toList], sp1), (wd "where", sp1),
+             (.chunk [.w "t.id>=".toList, .n "10".toList], sp1), (wd "and", sp1),
+             (.chunk [.w "f(".toList, .n "1".toList, .w ",".toList, .n "2".toList, .w ")<>".toList, .n "5".toList], sp1),
+             (wd "limit", sp1)]
+    last := .chunk [.n "5".toList, .w ",".toList, .n "10".toList]
+    tail := [] }
 
-/-- The same with other literals, letter case, white space and comments. -/
+/-- The same with other literals (signed, leading dot, `e+`, doubled quotes),
+    letter case, white space and comments. -/
 private def exE : Stmt :=
   { lead := [.hash " batch 7\n".toList]
-    init := [(wd "UPDATE", spBusy), (wd "t", sp1), (wd "SET", spBusy), (.cmpNum "a=".toList "0x2A".toList, spBusy),
-             (wd ",", sp1), (.cmpStr "NAME=".toList "\"it's\"".toList, spBusy), (wd "Where", sp1)]
-    last := .cmpNum "t.id>=".toList "1e5".toList
-    tail := some sp1 }
+    init := [(wd "UPDATE", spBusy), (wd "t", sp1), (wd "SET", spGlued), (.chunk [.w "a=".toList, .n "-0x2A".toList], spBusy),
+             (wd ",", sp1), (.chunk [.w "NAME=".toList, .p 'x' "'0F'".toList], spBusy), (wd "Where", sp1),
+             (.chunk [.w "t.id>=".toList, .n "1e+5".toList], spGlued), (wd "AND", sp1),
+             (.chunk [.w "F(".toList, .n ".5".toList, .w ",".toList, .n "+2".toList, .w ")<>".toList, .n "5.".toList], sp1),
+             (wd "LIMIT", spBusy)]
+    last := .chunk [.n "07".toList, .w ",".toList, .n "1".toList]
+    tail := sp1 }
 
-example : exD.text = "update t set a=1 , name='x' where t.id>=10".toList := by decide
+example : exD.text = "update t set a=1 , name='x' where t.id>=10 and f(1,2)<>5 limit 5,10".toList := by decide
 example : exD.ok = true ∧ exE.ok = true ∧ exD.skeleton = exE.skeleton ∧ exD.text ≠ exE.text := by decide
-example : getFingerprint exE.text = .ret "update t set a=? , name=? where t.id>=?".toList := by
+example : getFingerprint exE.text = .ret "update t set a=? , name=? where t.id>=? and f(?,?)<>? limit ?,?".toList := by
   rw [fingerprint_eq_joinSp exE (by decide)]; decide
 
 /-- `insert into t (a, b) values (1, 'x)')` and
-    `select c from t where a in(1) or b IN (2, f(3)) order by c` -/
+    `select c from t where (a in(1)) or b IN (2, f(3)) order by c`. -/
 private def exF : Stmt :=
   { lead := []
     init := [(wd "insert", sp1), (wd "into", sp1), (wd "t", sp1), (wd "(a,", sp1), (wd "b)", sp1)]
-    last := .vlist "values".toList " ".toList "1, 'x)'".toList
-    tail := none }
+    last := .vlist "values".toList sp1 "1, 'x)'".toList []
+    tail := [] }
+/-- Several rows, comments between `VALUES` and the list, between the rows
+    and inside the parentheses (holding a quote and a parenthesis). -/
 private def exG : Stmt :=
   { lead := []
-    init := [(wd "INSERT", spBusy), (wd "into", sp1), (wd "t", sp1), (wd "(a,", spBusy), (wd "b)", sp1)]
-    last := .vlist "VALUES".toList "".toList "'(((', (2 + 3) * 4".toList
-    tail := some sp1 }
+    init := [(wd "INSERT", spBusy), (wd "into", sp1), (wd "t", sp1), (wd "(a,", spBusy), (wd "b)", spGlued)]
+    last := .vlist "VALUES".toList [.mlc " v */".toList] "/* it's ( */ '(((', (2 + 3) * 4 -- )\n".toList
+      [{ g1 := [.ws ' '], g2 := [.hash " next (\n".toList], content := "'a''b', f(3)".toList },
+       { g1 := [], g2 := [], content := "".toList }]
+    tail := sp1 }
 private def exH : Stmt :=
   { lead := []
-    init := [(wd "select", sp1), (wd "c", sp1), (wd "from", sp1), (wd "t", sp1), (wd "where", sp1), (wd "a", sp1),
-             (.vlist "in".toList [] "1".toList, sp1), (wd "or", sp1), (wd "b", sp1),
-             (.vlist "IN".toList " ".toList "2, f(3)".toList, sp1), (wd "order", sp1), (wd "by", sp1)]
+    init := [(wd "select", sp1), (wd "c", sp1), (wd "from", sp1), (wd "t", sp1), (wd "where", sp1), (wd "(a", sp1),
+             (.vlist "in".toList [] "1".toList [], []), (wd ")", sp1), (wd "or", sp1), (wd "b", sp1),
+             (.vlist "IN".toList sp1 "2, f(3)".toList [], sp1), (wd "order", sp1), (wd "by", sp1)]
     last := wd "c"
-    tail := none }
+    tail := [] }
 
 example : exF.text = "insert into t (a, b) values (1, 'x)')".toList := by decide
-example : exH.text = "select c from t where a in(1) or b IN (2, f(3)) order by c".toList := by decide
+example : exG.text.drop 66 =
+    "VALUES/* v */(/* it's ( */ '(((', (2 + 3) * 4 -- )\n) ,# next (\n('a''b', f(3)),() ".toList := by decide
+example : exH.text = "select c from t where (a in(1)) or b IN (2, f(3)) order by c".toList := by decide
 example : exF.ok = true ∧ exG.ok = true ∧ exH.ok = true ∧ exF.skeleton = exG.skeleton ∧ exF.text ≠ exG.text := by
   decide
-example : getFingerprint exH.text = .ret "select c from t where a in(?+) or b in(?+) order by c".toList := by
+example : getFingerprint exG.text = .ret "insert into t (a, b) values(?+)".toList := by
+  rw [fingerprint_eq_joinSp exG (by decide)]; decide
+example : getFingerprint exH.text = .ret "select c from t where (a in(?+)) or b in(?+) order by c".toList := by
   rw [fingerprint_eq_joinSp exH (by decide)]; decide
+
+/-- `insert into t values (1), (2) on duplicate key update a=values(a), b = 3`:
+    behind `ON DUPLICATE KEY UPDATE`, `values(a)` is word text. -/
+private def exI : Stmt :=
+  { lead := []
+    init := [(wd "insert", sp1), (wd "into", sp1), (wd "t", sp1),
+             (.vlist "values".toList sp1 "1".toList [{ g1 := [], g2 := sp1, content := "2".toList }], sp1),
+             (wd "on", sp1), (wd "duplicate", sp1), (wd "key", sp1), (wd "update", sp1), (wd "a=values(a),", sp1),
+             (wd "b", sp1), (wd "=", sp1)]
+    last := nm "3"
+    tail := [] }
+private def exJ : Stmt :=
+  { lead := []
+    init := [(wd "INSERT", sp1), (wd "INTO", sp1), (wd "t", spGlued),
+             (.vlist "VALUES".toList [] " 7 /* one row */".toList [], spBusy),
+             (wd "ON", sp1), (wd "DUPLICATE", sp1), (wd "KEY", spGlued), (wd "UPDATE", spBusy), (wd "a=VALUES(a),", sp1),
+             (wd "b", sp1), (wd "=", sp1)]
+    last := st "'x'"
+    tail := sp1 }
+
+example : exI.text = "insert into t values (1), (2) on duplicate key update a=values(a), b = 3".toList := by decide
+example : exI.ok = true ∧ exJ.ok = true ∧ exI.skeleton = exJ.skeleton := by decide
+example : getFingerprint exJ.text = .ret "insert into t values(?+) on duplicate key update a=values(a), b = ?".toList := by
+  rw [fingerprint_eq_joinSp exJ (by decide)]; decide
 
 end Examples
 
@@ -516,21 +678,29 @@ theorem replaceNumbersInWords_as_in_source :
     replaceNumbersInWords = Gen.c36ReplaceNumbersInWords ∧ Gen.c36ReplaceNumbersInWordsWrites = 0 := by
   decide
 
-/-- `isSpace` of the model accepts exactly the runes of the source's `isSpace`,
-    and the model has as many parser states as the source. -/
+/-- `isSpace` of the model accepts exactly the runes of the source's `isSpace`
+    (blank, tab, CR, LF, VT, FF — the white space of `strings.TrimSpace` on
+    ASCII text, `isTrimSpace`), and the model has as many parser states as the
+    source. -/
 theorem isSpace_as_in_source :
     (∀ c : Char, isSpace c = true → c.toNat ∈ Gen.c36SpaceRunes) ∧
-      (∀ n ∈ Gen.c36SpaceRunes, isSpace (Char.ofNat n) = true) ∧ Gen.c36StateCount = 18 := by
-  refine ⟨?_, by decide, by decide⟩
-  intro c h
-  rcases isSpace_cases h with h | h | h | h <;> subst h <;> decide
+      (∀ n ∈ Gen.c36SpaceRunes, isSpace (Char.ofNat n) = true) ∧ Gen.c36StateCount = 18 ∧
+      (∀ c : Char, isSpace c = isTrimSpace c) := by
+  refine ⟨?_, by decide, by decide, ?_⟩
+  · intro c h
+    rcases isSpace_cases h with h | h | h | h | h | h <;> subst h <;> decide
+  · intro c
+    simp only [isSpace, isTrimSpace]
+    by_cases h1 : c = ' ' <;> by_cases h2 : c = '\t' <;> by_cases h3 : c = '\r' <;> by_cases h4 : c = '\n' <;>
+      by_cases h5 : c = Char.ofNat 11 <;> by_cases h6 : c = Char.ofNat 12 <;> simp [h1, h2, h3, h4, h5, h6]
 
-/-! ### Witnesses: shapes outside the grammar on which the current code fails
+/-! ### Witnesses: shapes on which the current code still fails
 
 Each theorem exhibits, on the model of the current code, a blacklist entry and a
-statement that differs from it only in white space, comments or literal
-spelling and is nevertheless allowed (`known/C36.json` lists the classes; the
-same pairs are replayed against the implementation from `corpus/C36`). -/
+statement that differs from it only in white space (or, for over-blocking, in
+structure) on which `IsSQLAllowed` answers wrongly (`known/C36.json` lists the
+classes; the same pairs are replayed against the implementation from
+`corpus/C36`). -/
 
 /-- `IsSQLAllowed` of `stmt` against the blacklist `[entry]` (md5 := identity). -/
 def allowedAgainst (entry stmt : String) : Option Bool :=
@@ -538,86 +708,78 @@ def allowedAgainst (entry stmt : String) : Option Bool :=
   | some m => isSQLAllowed id m stmt.toList
   | none => none
 
+/-- Optional white space is significant (the expected strings of
+    mysql/sql_fingerprint_test.go pin both `a = ?` and `b=?`). -/
 theorem optional_space_witness :
-    allowedAgainst "select c from t where id=1" "select c from t where id = 1" = some true := by decide
-
-theorem mlc_glued_after_word_witness :
-    allowedAgainst "select c from t" "select c/* x */ from t" = some true := by decide
-
-theorem mlc_glued_after_op_witness :
-    allowedAgainst "select a, b from t" "select a,/* x */ b from t" = some true := by decide
-
-theorem mlc_glued_after_list_witness :
-    allowedAgainst "select c from t where a in (1) and b = 2" "select c from t where a in (1)/* x */and b = 2"
-      = some true := by decide
-
-theorem mlc_glued_both_sides_after_literal_witness :
-    allowedAgainst "select c from t where a = 1 and b = 2" "select c from t where a = 1/* x */and b = 2"
-      = some true := by decide
-
-theorem hash_glued_after_word_witness :
-    allowedAgainst "select c from t" "select c# x\nfrom t" = some true := by decide
-
-theorem hash_glued_after_op_witness :
-    allowedAgainst "select a, b from t" "select a,# x\n b from t" = some true := by decide
-
-theorem hash_glued_after_literal_witness :
-    allowedAgainst "select c from t where a = 1 and b = 2" "select c from t where a = 1# x\nand b = 2"
-      = some true := by decide
-
-theorem hash_glued_after_list_witness :
-    allowedAgainst "select c from t where a in (1) and b = 2" "select c from t where a in (1)# x\nand b = 2"
-      = some true := by decide
-
-theorem dash_glued_after_list_witness :
-    allowedAgainst "select c from t where a in (1) and b = 2" "select c from t where a in (1)-- x\nand b = 2"
-      = some true := by decide
-
-theorem dash_glued_after_first_word_witness :
-    allowedAgainst "delete from t" "delete-- x\nfrom t" = some true := by decide
-
-theorem dash_glued_after_literal_witness :
-    allowedAgainst "select c from t where a = 1 and b = 2" "select c from t where a = 1-- x\nand b = 2"
-      = some true := by decide
-
-theorem dash_after_list_witness :
-    allowedAgainst "select c from t where a in (1) and b = 2" "select c from t where a in (1) -- x\nand b = 2"
-      = some true := by decide
-
-theorem mlc_before_list_witness :
-    allowedAgainst "select c from t where a in (1)" "select c from t where a in /* x */ (1)" = some true := by decide
-
-theorem dash_before_list_witness :
-    allowedAgainst "select c from t where a in (1)" "select c from t where a in -- x\n(1)" = some true := by decide
-
-theorem hash_before_list_witness :
-    allowedAgainst "select c from t where a in (1)" "select c from t where a in # x\n(1)" = some true := by decide
-
-theorem comment_with_quote_or_paren_inside_list_witness :
-    allowedAgainst "select c from t where a in (1, 2)" "select c from t where a in (1, /* it's */ 2)"
-      = some true := by decide
-
-theorem lit_doubled_quote_witness :
-    allowedAgainst "select c from t where a = 'x'" "select c from t where a = 'it''s'" = some true := by decide
-
-theorem lit_exponent_plus_witness :
-    allowedAgainst "select c from t where a = 1" "select c from t where a = 1e+5" = some true := by decide
-
-theorem lit_leading_dot_witness :
-    allowedAgainst "select c from t where a = 1" "select c from t where a = .5" = some true := by decide
-
-theorem lit_prefixed_string_glued_witness :
-    allowedAgainst "select c from t where a=1" "select c from t where a=x'0F'" = some true ∧
-      allowedAgainst "select c from t where a=x'0F'" "select c from t where b=x'0F'" = some false := by decide
-
-theorem vertical_tab_form_feed_space_witness :
-    allowedAgainst "select c from t" "\x0bselect c from t" = some true ∧
-      allowedAgainst "\x0bselect c from t\x0c" "select c from t" = some false := by decide
+    allowedAgainst "select c from t where id=1" "select c from t where id = 1" = some true ∧
+      allowedAgainst "select a, b from t" "select a,b from t" = some true ∧
+      allowedAgainst "select a,b from t" "select a,/* x */b from t" = some true := by decide
 
 /-- Over-blocking: the contents of an `IN (…)` list are collapsed, so a
     statement that compares with another column is rejected by an entry that
     compares with a literal. -/
 theorem mutant_rejected_list_content_witness :
     allowedAgainst "select c from t where a in (1)" "select c from t where a in (b)" = some false := by decide
+
+/-! ### Former witnesses: shapes the fix commits repaired
+
+The pairs of the witness theorems of the 21 classes that were open before the
+fix commits a52008b … 79070a8 (known/C36.json, `fixed`): the variant is now
+rejected.  (Most of them are instances of `blacklist_rejects_variant_partial`;
+they are kept as concrete regression facts, also replayed from `corpus/C36`.) -/
+
+theorem mlc_glued_repaired :
+    allowedAgainst "select c from t" "select c/* x */ from t" = some false ∧
+    allowedAgainst "select a, b from t" "select a,/* x */ b from t" = some false ∧
+    allowedAgainst "select c from t where a in (1) and b = 2" "select c from t where a in (1)/* x */and b = 2"
+      = some false ∧
+    allowedAgainst "select c from t where a = 1 and b = 2" "select c from t where a = 1/* x */and b = 2"
+      = some false := by decide
+
+theorem hash_glued_repaired :
+    allowedAgainst "select c from t" "select c# x\nfrom t" = some false ∧
+    allowedAgainst "select a, b from t" "select a,# x\n b from t" = some false ∧
+    allowedAgainst "select c from t where a = 1 and b = 2" "select c from t where a = 1# x\nand b = 2" = some false ∧
+    allowedAgainst "select c from t where a in (1) and b = 2" "select c from t where a in (1)# x\nand b = 2"
+      = some false := by decide
+
+theorem dash_glued_repaired :
+    allowedAgainst "select c from t where a in (1) and b = 2" "select c from t where a in (1)-- x\nand b = 2"
+      = some false ∧
+    allowedAgainst "delete from t" "delete-- x\nfrom t" = some false ∧
+    allowedAgainst "select c from t where a = 1 and b = 2" "select c from t where a = 1-- x\nand b = 2" = some false ∧
+    allowedAgainst "select c from t where a in (1) and b = 2" "select c from t where a in (1) -- x\nand b = 2"
+      = some false := by decide
+
+theorem comment_around_list_repaired :
+    allowedAgainst "select c from t where a in (1)" "select c from t where a in /* x */ (1)" = some false ∧
+    allowedAgainst "select c from t where a in (1)" "select c from t where a in -- x\n(1)" = some false ∧
+    allowedAgainst "select c from t where a in (1)" "select c from t where a in # x\n(1)" = some false ∧
+    allowedAgainst "select c from t where a in (1, 2)" "select c from t where a in (1, /* it's */ 2)"
+      = some false := by decide
+
+theorem literal_spelling_repaired :
+    allowedAgainst "select c from t where a = 'x'" "select c from t where a = 'it''s'" = some false ∧
+    allowedAgainst "select c from t where a = 1" "select c from t where a = 1e+5" = some false ∧
+    allowedAgainst "select c from t where a = 1" "select c from t where a = .5" = some false ∧
+    allowedAgainst "select c from t where a=1" "select c from t where a=x'0F'" = some false ∧
+    allowedAgainst "select c from t where a=x'0F'" "select c from t where b=x'0F'" = some true := by decide
+
+theorem vertical_tab_form_feed_repaired :
+    allowedAgainst "select c from t" "\x0bselect c from t" = some false ∧
+    allowedAgainst "\x0bselect c from t\x0c" "select\x0cc from\x0bt" = some false := by decide
+
+theorem values_rows_blank_repaired :
+    allowedAgainst "insert into t values (1), (2) on duplicate key update a=1"
+      "insert into t values (1) , (2) on duplicate key update a=1" = some false ∧
+    allowedAgainst "insert into t values (1), (2) on duplicate key update a=1"
+      "insert into t values (1),(2),(3) on duplicate key update a=1" = some false := by decide
+
+/-- 79070a8: a column named `value` (no value list follows the word). -/
+theorem values_word_without_list_repaired :
+    allowedAgainst "select value from t" "select value  from t" = some false ∧
+    allowedAgainst "select a from t where value = 'x'" "select a from t where value = 'y'" = some false ∧
+    allowedAgainst "select a from t where value = 5" "select a from t where value = 6" = some false ∧
+    allowedAgainst "select a from t where value = 5" "select a from t where value = 5 and b = 1" = some true := by decide
 
 end GaeaVerif.C36
